@@ -208,6 +208,7 @@ def run(chk):
     p1_api_resolution(chk)
     p2_driver(chk)
     p3_scale_length(chk)
+    p4_ensure_int(chk)
     bounded(chk)
     chk.assumptions += [
         "receiver typing is a conservative dataflow inside each function (a name the function itself uses as a node); untyped receivers generate no obligation and are counted in the evidence",
@@ -240,6 +241,58 @@ def p3_scale_length(chk):
         if out.returned:
             I.oblige("returns_a_number", isinstance(out.value, (int, float)) and not isinstance(out.value, bool) or isinstance(out.value, (SReal, SInt)))
     chk.prove("styleutils.scale_length", harness, ex, targets=[fn], replay=replay_scale_length)
+
+
+def p4_ensure_int(chk):
+    """AdvancedNode._ensure_int cleans colspan / rowspan on every access of a node's attributes (every pass that looks at
+    .attributes, .style, .colspan, has_class_id ...).  Contract: for any attribute text it returns an int within
+    [min_val, max_val] and never raises.  int(str) by its library contract: an int or ValueError."""
+    import z3
+    from pyvc.interp import Explorer
+    from pyvc.values import PObj, SInt
+    ADV = "mwlib/parser/advtree.py"
+    ex = Explorer()
+    fn = ex.function(ADV, "AdvancedNode._ensure_int")
+
+    def harness(I):
+        val = I.fresh_str("attribute_text")
+        lo = 1
+        hi = [None, 1000, 65534][I.choose(3, "max_val")]
+        out = ex.run_function(I, fn, [PObj("AdvancedNode", {}), val], {"min_val": lo, "max_val": hi})
+        I.oblige("no_raise" if out.returned else f"no_raise[{out.exc!r}]", out.returned)
+        if out.returned:
+            v = out.value
+            vz = v.z if isinstance(v, SInt) else z3.IntVal(v) if isinstance(v, int) and not isinstance(v, bool) else None
+            I.oblige("returns_an_int", vz is not None)
+            if vz is not None:
+                I.oblige("at_least_min", vz >= lo)
+                if hi is not None:
+                    I.oblige("at_most_max", vz <= hi)
+    chk.prove("advtree.AdvancedNode._ensure_int", harness, ex, targets=[fn], replay=replay_ensure_int)
+    # the call site: both span attributes are cleaned with an upper bound (passes allocate per column / row)
+    import ast
+    from pyvc import source
+    src = ast.unparse(source.module(ADV).find("AdvancedNode._clean_attrs"))
+    calls = [n for n in ast.walk(ast.parse(src)) if isinstance(n, ast.Call) and isinstance(n.func, ast.Attribute) and n.func.attr == "_ensure_int"]
+    bounded_calls = [c for c in calls if any(k.arg == "max_val" and not (isinstance(k.value, ast.Constant) and k.value.value is None) for k in c.keywords)]
+    chk.static("advtree.AdvancedNode._clean_attrs.span_values_are_bounded", bool(calls) and len(calls) == len(bounded_calls),
+               f"{len(calls)} calls of _ensure_int in _clean_attrs, {len(bounded_calls)} with an upper bound")
+
+
+def replay_ensure_int(model, obligation):
+    from mwlib.parser.advtree import AdvancedNode
+    n = AdvancedNode.__new__(AdvancedNode)
+    for s in ("2", "\u00b2", "\u2460", "\u0663", "+2", "-2", " 2 ", "2.0", "1e3", "", "x", "2" * 5000, "\uff12", "1_0", "99999999999", None, 3, 2.5):
+        for hi in (None, 1000):
+            try:
+                v = n._ensure_int(s, min_val=1, max_val=hi) if hi is not None else n._ensure_int(s, min_val=1)
+            except Exception as e:  # noqa: BLE001
+                if s is None:
+                    continue     # not an attribute text
+                return True, {"call": f"_ensure_int({str(s)[:20]!r}, 1, {hi})", "raised": f"{type(e).__name__}: {str(e)[:80]}"}, "_ensure_int"
+            if not isinstance(v, int) or v < 1 or (hi is not None and v > hi):
+                return True, {"call": f"_ensure_int({str(s)[:20]!r}, 1, {hi})", "returned": repr(v)[:40]}, "_ensure_int"
+    return False, {"cases": 36}, None
 
 
 def replay_scale_length(model, obligation):
